@@ -290,6 +290,34 @@ class GSucc(Step):
         return {'v': {'z': states['v']['y'] + 1}}
 
 
+class GReaper(Step):
+    """a legacy deriver that removes its own agent (death) once x has reached a threshold"""
+    defaults = {'key': '', 'at': 2}
+
+    def ports_schema(self):
+        return {'v': {'x': {'_default': 0}}, 'agents': {}}
+
+    def next_update(self, timestep, states):
+        if states['v']['x'] >= self.parameters['at']:
+            return {'agents': {'_delete': [self.parameters['key']]}}
+        return {}
+
+
+class GDivider(Step):
+    """a flow step that divides its own agent once x has reached a threshold (the daughters inherit processes and steps)"""
+    defaults = {'key': '', 'at': 2}
+
+    def ports_schema(self):
+        return {'v': {'x': {'_default': 0}}, 'agents': {}}
+
+    def next_update(self, timestep, states):
+        key = self.parameters['key']
+        if states['v']['x'] >= self.parameters['at'] and not getattr(self, 'done', False):
+            self.done = True         # the daughters' copies of this step are made after this: they never divide again
+            return {'agents': {'_divide': {'mother': key, 'daughters': [{'key': key + '0'}, {'key': key + '1'}]}}}
+        return {}
+
+
 class GSpawner(Process):
     """adds agents at scripted ticks through _generate; optionally deletes one later"""
     defaults = {'timestep': 1.0, 'script': {}}
@@ -324,6 +352,16 @@ def agent_spec(key, style):
         d['steps'] = {'double': GDouble(), 'succ': GSucc()}
     elif style == 'legacy-in-processes':
         d['processes'].update({'double': GDouble(), 'succ': GSucc()})
+    elif style == 'legacy-reaper':
+        # dies (deletes its own compartment from inside a step phase) when x reaches 2
+        d['steps'] = {'reaper': GReaper({'key': key, 'at': 2}), 'double': GDouble(), 'succ': GSucc()}
+        d['topology'] = dict(topo, reaper={'v': ('v',), 'agents': ('..',)})
+    elif style == 'flow-divider':
+        # the dividing step and `double` are in ONE layer: `double` still has an update in flight when the division is
+        # applied; the daughters inherit the mother's processes and steps
+        d['steps'] = {'adivide': GDivider({'key': key, 'at': 2}), 'double': GDouble(), 'succ': GSucc()}
+        d['flow'] = {'adivide': [], 'double': [], 'succ': [('double',)]}
+        d['topology'] = dict(topo, adivide={'v': ('v',), 'agents': ('..',)})
     elif style == 'flow-chain':
         d['steps'] = {'double': GDouble(), 'succ': GSucc()}
         d['flow'] = {'double': [], 'succ': [('double',)]}
@@ -333,7 +371,7 @@ def agent_spec(key, style):
     return d
 
 
-GEN_STYLES = ['legacy-steps', 'legacy-in-processes', 'flow-chain', 'flow-layer']
+GEN_STYLES = ['legacy-steps', 'legacy-in-processes', 'flow-chain', 'flow-layer', 'legacy-reaper', 'flow-divider']
 
 
 def check_generated(case):
@@ -355,22 +393,39 @@ def check_generated(case):
         styles = {'a0': case['a0']}
         born = {'a0': 0}
         prev_y = {}
+        last_x = {}
         for tick in range(1, case['ticks'] + 1):
             for op in script.get(tick, []):
                 if op[0] == 'generate':
                     styles[op[1]] = op[2]
                     born[op[1]] = tick
             eng.update(1)
-            agents = eng.state.get_value().get('agents', {})
+            agents = eng.state.get_value().get('agents') or {}
             for op in script.get(tick, []):
                 if op[0] == 'delete' and op[1] in agents:
                     fails.append('tick %d: deleted agent %s still exists' % (tick, op[1]))
                 if op[0] == 'delete':
                     styles.pop(op[1], None)
-            for name, style in styles.items():
+            for name, style in list(styles.items()):
+                if style == 'flow-divider' and name not in agents and name + '0' in agents and name + '1' in agents:
+                    styles.pop(name)
+                    for dn in (name + '0', name + '1'):
+                        styles[dn] = 'flow-chain'      # the daughters carry the same chain double -> succ
+                        last_x[dn] = agents[dn]['v']['x']
+                    continue
+                if style == 'flow-divider' and name in agents and agents[name]['v']['x'] >= 3:
+                    fails.append('tick %d: agent %s should have divided (x=%r)' % (tick, name, agents[name]['v']['x']))
+                if style == 'legacy-reaper' and name not in agents:
+                    styles.pop(name)          # it died (checked below: only when its x had reached the threshold)
+                    if last_x.get(name, 0) + 1 < 2:
+                        fails.append('tick %d: agent %s died before its x reached the threshold' % (tick, name))
+                    continue
                 if name not in agents:
                     fails.append('tick %d: agent %s is missing' % (tick, name))
                     continue
+                last_x[name] = agents[name]['v']['x']
+                if style == 'legacy-reaper' and agents[name]['v']['x'] >= 2:
+                    fails.append('tick %d: agent %s should have removed itself (x=%r)' % (tick, name, agents[name]['v']['x']))
                 v = agents[name]['v']
                 x, y, z = v['x'], v['y'], v['z']
                 if y != 2 * x:
@@ -472,6 +527,9 @@ def main():
                 break
     # steps that join the simulation through structural updates (C05: order in every later phase; C04: one snapshot per layer)
     gcases = [{'a0': 'legacy-steps', 'script': {'1': [['generate', 'a1', st]]}, 'ticks': 5} for st in GEN_STYLES]
+    gcases += [{'a0': 'legacy-reaper', 'script': {'1': [['generate', 'a1', st], ['generate', 'a2', 'legacy-steps']]}, 'ticks': 5}
+               for st in ('legacy-steps', 'legacy-reaper', 'flow-chain')]
+    gcases += [{'a0': 'flow-divider', 'script': {}, 'ticks': 5}, {'a0': 'legacy-steps', 'script': {'1': [['generate', 'a1', 'flow-divider']]}, 'ticks': 6}]
     gcases += [gen_generated(rng) for _ in range(20 if a.tier == 'quick' else 400)]
     for gi, case in enumerate(gcases):
         if len(failures) >= 3:
